@@ -38,11 +38,23 @@ func TestC10Split(t *testing.T) {
 		b := genBytesAlpha(rt, "in", 24)
 		s := &SplitSpec{In: b, Unsafe: rapid.Bool().Draw(rt, "unsafe")}
 		nc := rapid.IntRange(0, 5).Draw(rt, "ncuts")
-		prev := 0
-		for i := 0; i < nc; i++ {
-			c := rapid.IntRange(prev, len(b)).Draw(rt, "cut")
-			s.Cuts = append(s.Cuts, c)
-			prev = c
+		if rapid.IntRange(0, 14).Draw(rt, "bulksplit") == 7 {
+			// a small head (possibly ending inside a rune or a marker), one
+			// big chunk (size thresholds), a small tail: cuts around the chunk
+			head := genBytesAlpha(rt, "head", 6)
+			bulk := genBulkOp(rt, &opConfig{bytesAlpha: true}, "bulk").S
+			tail := genBytesAlpha(rt, "tail", 6)
+			b = append(append(append([]byte(nil), head...), bulk...), tail...)
+			s.In = b
+			s.Cuts = []int{len(head), len(head) + len(bulk)}
+			nc = 2
+		} else {
+			prev := 0
+			for i := 0; i < nc; i++ {
+				c := rapid.IntRange(prev, len(b)).Draw(rt, "cut")
+				s.Cuts = append(s.Cuts, c)
+				prev = c
+			}
 		}
 		for i := 0; i <= nc; i++ {
 			s.Str = append(s.Str, rapid.Bool().Draw(rt, "str"))
